@@ -70,8 +70,12 @@ def _update_optimal_result(
     results: tuple[Results, ...],
     transformed_results: tuple[Results, ...],
     constraint_tolerance: float | None,
-) -> FunctionResults | None:
-    return_result: FunctionResults | None = None
+) -> tuple[FunctionResults, FunctionResults] | None:
+    # The optimizer minimizes the transformed weighted objective, hence the
+    # optimum is determined in the optimizer domain: `optimal_result` is the
+    # transformed current optimum, and both the new optimal result and its
+    # transformed counterpart are returned.
+    return_result: tuple[FunctionResults, FunctionResults] | None = None
     for item, transformed_item in zip(results, transformed_results, strict=False):
         if (
             isinstance(transformed_item, FunctionResults)
@@ -79,8 +83,10 @@ def _update_optimal_result(
             and not _violates_constraint(transformed_item, constraint_tolerance)
         ):
             assert isinstance(item, FunctionResults)
-            new_optimal_result = _get_new_optimal_result(optimal_result, item)
+            new_optimal_result = _get_new_optimal_result(
+                optimal_result, transformed_item
+            )
             if new_optimal_result is not None:
                 optimal_result = new_optimal_result
-                return_result = new_optimal_result
+                return_result = (item, transformed_item)
     return return_result
